@@ -322,7 +322,8 @@ def run(chk, tier):
                 if container == "enum" and mode in ("plain", "generic") and (n <= 2 or thorough):
                     for shape in ("alone", "with_ignored", "ignored_first", "ignored_marked", "two_sourced"):
                         cases.append(runtime_case("c%d" % len(cases), named, fields, container, mode, wsrc, shape=shape))
-    eng = CompileEngine("C09", prelude=PRELUDE, per_bin=max(8, len(cases) // 16 + 1))
+    # (16 rustc processes run in parallel: the thorough tier's programs are kept small enough that they fit into memory together)
+    eng = CompileEngine("C09", prelude=PRELUDE, per_bin=max(8, len(cases) // (64 if thorough else 16) + 1))
     results = eng.run_cases(cases)
     for c in cases:
         r = results[c.cid]
